@@ -62,7 +62,7 @@ async fn asynchronous(worterbuch: &CloneableWbApi, config: &Config) -> Persisten
         grave_goods_last_will_path,
         grave_goods_last_will_path_checksum,
         last_persisted,
-    ) = file_paths(config, true).await?;
+    ) = slot_paths(config, !selected_slot(config).await?);
 
     let json = json.to_string();
     write_and_check(json.as_bytes(), &store_path, &store_path_checksum).await?;
@@ -77,6 +77,9 @@ async fn asynchronous(worterbuch: &CloneableWbApi, config: &Config) -> Persisten
         &grave_goods_last_will_path_checksum,
     )
     .await?;
+
+    // only a completely written slot gets selected for loading
+    flip_selected_slot(config).await?;
 
     File::create(&last_persisted).await?;
 
@@ -98,7 +101,7 @@ pub(crate) async fn synchronous(
         grave_goods_last_will_path,
         grave_goods_last_will_path_checksum,
         last_persisted,
-    ) = file_paths(config, true).await?;
+    ) = slot_paths(config, !selected_slot(config).await?);
 
     debug!("Exporting database state …");
     let (data, grave_goods, last_will) = worterbuch.export();
@@ -117,6 +120,9 @@ pub(crate) async fn synchronous(
         &grave_goods_last_will_path_checksum,
     )
     .await?;
+
+    // only a completely written slot gets selected for loading
+    flip_selected_slot(config).await?;
 
     File::create(&last_persisted).await?;
 
@@ -184,61 +190,85 @@ async fn validate_file_content<P: AsRef<Path> + Debug>(
 
 #[instrument(skip(config) fields(version=3), err)]
 pub async fn load(config: &Config) -> PersistenceResult<Worterbuch> {
-    let (
-        store_path,
-        store_path_checksum,
-        grave_goods_last_will_path,
-        grave_goods_last_will_path_checksum,
-        _,
-    ) = file_paths(config, false).await?;
+    let selected = selected_slot(config).await?;
 
-    let mut wb = match try_load(&store_path, &store_path_checksum, config).await {
-        Ok(worterbuch) => Ok(worterbuch),
-        Err(e) => {
-            warn!(
-                "Could not load persistence file {}: {e}",
-                store_path.to_string_lossy()
-            );
-            let (store_path, store_path_checksum, _, _, _) = file_paths(config, true).await?;
-            info!(
-                "Trying to load persistence file {} …",
-                store_path.to_string_lossy()
-            );
-            try_load(&store_path, &store_path_checksum, config).await
+    // A flush writes the store and the grave goods/last wills of a slot as a unit, so they are
+    // loaded as a unit: first choice is a slot of which both files are intact, only if there is
+    // none a store without its grave goods and last wills is accepted.
+    let mut loaded = None;
+    let mut error = None;
+    'search: for complete in [true, false] {
+        for slot in [selected, !selected] {
+            match try_load_slot(config, slot, complete).await {
+                Ok(it) => {
+                    loaded = Some((slot, it));
+                    break 'search;
+                }
+                Err(e) => {
+                    warn!(
+                        "Could not load persistence slot {}: {e}",
+                        if slot { "a" } else { "b" }
+                    );
+                    error = Some(e);
+                }
+            }
         }
-    }?;
+    }
 
-    if let Ok(grave_goods_last_will) = match try_load_grave_goods_last_will(
-        &grave_goods_last_will_path,
-        &grave_goods_last_will_path_checksum,
-    )
-    .await
-    {
-        Ok(gglw) => Ok(gglw),
-        Err(e) => {
-            warn!(
-                "Could not load persistence file {}: {e}",
-                grave_goods_last_will_path.to_string_lossy()
-            );
-            let (_, _, grave_goods_last_will_path, grave_goods_last_will_path_checksum, _) =
-                file_paths(config, true).await?;
-            info!(
-                "Trying to load persistence file {} …",
-                grave_goods_last_will_path.to_string_lossy()
-            );
-            try_load_grave_goods_last_will(
-                &grave_goods_last_will_path,
-                &grave_goods_last_will_path_checksum,
-            )
-            .await
-        }
-    } {
+    let Some((slot, (mut wb, grave_goods_last_will))) = loaded else {
+        return Err(error.unwrap_or(PersistenceError::ChecksumMismatch));
+    };
+
+    if slot != selected {
+        // the next flush must overwrite the broken slot, not the one that could be loaded
+        flip_selected_slot(config).await?;
+    }
+
+    if let Some(grave_goods_last_will) = grave_goods_last_will {
         wb.apply_grave_goods(grave_goods_last_will.grave_goods)
             .await;
         wb.apply_last_wills(grave_goods_last_will.last_will).await;
     }
 
     Ok(wb)
+}
+
+async fn try_load_slot(
+    config: &Config,
+    slot: bool,
+    complete: bool,
+) -> PersistenceResult<(Worterbuch, Option<GraveGoodsLastWill>)> {
+    let (
+        store_path,
+        store_path_checksum,
+        grave_goods_last_will_path,
+        grave_goods_last_will_path_checksum,
+        _,
+    ) = slot_paths(config, slot);
+
+    info!(
+        "Trying to load persistence file {} …",
+        store_path.to_string_lossy()
+    );
+    let grave_goods_last_will = match try_load_grave_goods_last_will(
+        &grave_goods_last_will_path,
+        &grave_goods_last_will_path_checksum,
+    )
+    .await
+    {
+        Ok(it) => Some(it),
+        Err(e) if complete => return Err(e),
+        Err(e) => {
+            warn!(
+                "Could not load persistence file {}: {e}",
+                grave_goods_last_will_path.to_string_lossy()
+            );
+            None
+        }
+    };
+    let wb = try_load(&store_path, &store_path_checksum, config).await?;
+
+    Ok((wb, grave_goods_last_will))
 }
 
 async fn try_load(path: &Path, checksum: &Path, config: &Config) -> PersistenceResult<Worterbuch> {
@@ -278,17 +308,23 @@ async fn read_json_from_file(path: &Path, checksum: &Path) -> PersistenceResult<
     Ok(json)
 }
 
-#[instrument(level=Level::DEBUG, skip(config), ret, err)]
-pub(crate) async fn file_paths(
-    config: &Config,
-    write: bool,
-) -> PersistenceResult<(PathBuf, PathBuf, PathBuf, PathBuf, PathBuf)> {
-    let dir = PathBuf::from(&config.data_dir);
+/// The slot (`true`: a, `false`: b) that holds the last completed flush.
+async fn selected_slot(config: &Config) -> PersistenceResult<bool> {
+    toggle_alternating_files(&toggle_path(config), false).await
+}
 
-    let mut toggle_path = dir.clone();
+async fn flip_selected_slot(config: &Config) -> PersistenceResult<bool> {
+    toggle_alternating_files(&toggle_path(config), true).await
+}
+
+fn toggle_path(config: &Config) -> PathBuf {
+    let mut toggle_path = PathBuf::from(&config.data_dir);
     toggle_path.push(".toggle");
+    toggle_path
+}
 
-    let main = toggle_alternating_files(&toggle_path, write).await?;
+fn slot_paths(config: &Config, main: bool) -> (PathBuf, PathBuf, PathBuf, PathBuf, PathBuf) {
+    let dir = PathBuf::from(&config.data_dir);
 
     let mut store_path = dir.clone();
     let mut store_path_checksum = dir.clone();
@@ -309,13 +345,13 @@ pub(crate) async fn file_paths(
     }
     last_persisted.push(TIMESTAMP_FILE_NAME);
 
-    Ok((
+    (
         store_path,
         store_path_checksum,
         grave_goods_last_will_path,
         grave_goods_last_will_path_checksum,
         last_persisted,
-    ))
+    )
 }
 
 #[instrument(level=Level::DEBUG, ret, err)]
